@@ -198,10 +198,16 @@ def run(ctx):
 
     # ---------------- T1 remove_mapping's table
     R = ktloops.remove_mapping_analysis(ctx, K)
-    ck.ob("C02-T1", MOD + "remove_mapping", "sweep-and-scan-shapes", not R.problems, detail="; ".join(R.problems)[:300] or None)
+    pr = R.all_problems()
+    ck.ob("C02-T1", MOD + "remove_mapping", "sweep-and-scan-shapes", not pr, detail="; ".join(pr)[:300] or None)
     ck.ob("C02-T1", MOD + "remove_mapping", "both-scans-present", set(R.flags) == {"used", "shadowed"}, detail=str(sorted(R.flags)))
-    ck.ob("C02-T1", MOD + "remove_mapping", "scans-see-active_mappings-as-it-was(removal-after-the-complete-sweep)", R.am_removed_after_sweep,
-          detail=None if R.am_removed_after_sweep else "active_mappings is modified before the sweep finishes: `j != i` no longer excludes exactly the mapping being removed")
+    # `other mappings` = all active mappings but the one being removed: skip index i while it is still listed, or scan
+    # everything once it has been taken out. A still-used scan that counts the removed mapping keeps an unjustified key
+    # down; a still-shadowed scan that misses a remaining mapping hands a consumed trigger key back to pass-through.
+    ck.ob("C02-T1", MOD + "remove_mapping", "still-used-scan-never-counts-the-mapping-being-removed", R.covers("used") in ("exact", "subset"),
+          detail="removal %s the sweep, scan %s index i" % (R.am_removal, "skips" if R.excl.get("used") else "does not skip"))
+    ck.ob("C02-T1", MOD + "remove_mapping", "still-shadowed-scan-sees-every-remaining-mapping", R.covers("shadowed") in ("exact", "superset"),
+          detail="removal %s the sweep, scan %s index i: after the removal index i names a different, remaining mapping" % (R.am_removal, "skips" if R.excl.get("shadowed") else "does not skip"))
     outcomes = set()
     for val, outcome, site in R.rows:
         want = ktloops.remove_mapping_spec(val)
